@@ -21,20 +21,41 @@
 (* CodecShapes.cfg) and compares with the expectation recorded after each  *)
 (* step (hist).                                                            *)
 (*                                                                         *)
+(* Types.  An interned handle has a Rust TYPE (TypeOf: Interned<str>,       *)
+(* Interned<String>, Interned<W>, Interned<Dyn> ...) and a 128-bit content  *)
+(* HASH (HashOf).  The hash does not cover the type: `str` and `String`     *)
+(* hash identically, a new-type hashes like its field.  So two handles of   *)
+(* DIFFERENT types may have the SAME hash.  The code keys everything by     *)
+(* the pair: the session's `seen` set holds InternedID {stable_type_id,     *)
+(* hash_128}, the interner has one shard per type (get_from_hash::<T>).     *)
+(* A handle id of the model stands for one (type, hash) pair (ASSUME        *)
+(* below), so `tab`, indexed by handle id, is the table keyed by            *)
+(* (type, hash).  On the wire a reference is tag 1 + hash ONLY; the type of *)
+(* a position is static knowledge shared by encoder and decoder (the Rust   *)
+(* type of the field), carried in the model as the ghost field `ty` of a    *)
+(* reference token.                                                         *)
+(*                                                                         *)
 (* Switches: AllowUnregistered = TRUE is the API as it is (handles made by *)
 (* Interned::new_duplicating or by another interner are not in the table); *)
 (* PinDecoded = FALSE is the code as it is, TRUE models the repair (the    *)
 (* decode session keeps every decoded handle alive until the top-level     *)
-(* value is complete).                                                     *)
+(* value is complete).  SeenByHashOnly = FALSE is the code as it is; TRUE  *)
+(* is a MUTATION (anti-vacuity of FIFO / SelfContained): the session's     *)
+(* `seen` set is keyed by the bare content hash, so the second of two      *)
+(* equal-hash handles of different types is written as a reference to a    *)
+(* value of its type that was never written.                               *)
 (***************************************************************************)
 EXTENDS Naturals, Sequences, FiniteSets, TLC, Json
 
 CONSTANTS Pool,              \* sequence of top-level values: each the sequence of its handle ids in encode order (<<>> = no handles)
           Kids,              \* handle id -> sequence of handle ids inside that handle's content
+          TypeOf,            \* handle id -> Rust type of the handle ("S" = Interned<str>, "T" = Interned<String>, "W" = Interned<W(String)>, "D" = Interned<Dyn>)
+          HashOf,            \* handle id -> content hash class (equal for equal content, whatever the type)
           MaxEnc,            \* encodes per behaviour
           Aux,               \* TRUE: one auxiliary step (restart / drop originals / drop decoded) may occur
           AllowUnregistered,
           PinDecoded,
+          SeenByHashOnly,    \* MUTATION: `seen` keyed by the hash alone (the code keys it by (type, hash))
           Emitting              \* TRUE: behaviour generator (prints every complete behaviour as JSON)
 
 VARIABLES stream,  \* FIFO of encoded top-level values [v, wire]
@@ -50,18 +71,28 @@ vars == <<stream, pos, out, allocs, tab, reg, origAlive, kept, auxUsed, failed, 
 H == DOMAIN Kids
 Range(s) == {s[i] : i \in DOMAIN s}
 
+(* a handle id IS a (type, hash) pair: InternedID / slot of the per-type shard *)
+ASSUME /\ DOMAIN TypeOf = H /\ DOMAIN HashOf = H
+       /\ \A g, h \in H : (TypeOf[g] = TypeOf[h] /\ HashOf[g] = HashOf[h]) => g = h
+(* the slot of shard `ty` for hash `x` (0: that shard has never seen the hash) *)
+Slot(ty, x) == IF \E h \in H : TypeOf[h] = ty /\ HashOf[h] = x
+               THEN CHOOSE h \in H : TypeOf[h] = ty /\ HashOf[h] = x ELSE 0
+(* key of the session's `seen` set *)
+SeenKey(h) == IF SeenByHashOnly THEN <<HashOf[h]>> ELSE <<TypeOf[h], HashOf[h]>>
+
 (* ------------------------------ encode ---------------------------------- *)
-(* Encode for Interned<T>: `seen.insert(id)`; first -> tag 0 + value        *)
-(* (recursively, same session), later -> tag 1 + hash.                      *)
+(* Encode for Interned<T>: `seen.insert(InternedID {T::STABLE_TYPE_ID,      *)
+(* hash})`; first -> tag 0 + value (recursively, same session), later ->    *)
+(* tag 1 + hash (x; ty = static type of the position, not on the wire).     *)
 RECURSIVE EncSeq(_, _)
 EncSeq(hs, acc) ==
     IF hs = <<>> THEN acc
     ELSE LET h == Head(hs) IN
-         IF h \in acc.seen
-         THEN EncSeq(Tail(hs), [acc EXCEPT !.wire = Append(@, [t |-> "R", h |-> h])])
+         IF SeenKey(h) \in acc.seen
+         THEN EncSeq(Tail(hs), [acc EXCEPT !.wire = Append(@, [t |-> "R", x |-> HashOf[h], ty |-> TypeOf[h]])])
          ELSE EncSeq(Tail(hs),
                      EncSeq(Kids[h], [wire |-> Append(acc.wire, [t |-> "S", h |-> h]),
-                                      seen |-> acc.seen \cup {h}]))
+                                      seen |-> acc.seen \cup {SeenKey(h)}]))
 Wire(v) == EncSeq(Pool[v], [wire |-> <<>>, seen |-> {}]).wire     \* new Session per top-level encode
 
 Pattern(w) == [i \in DOMAIN w |-> w[i].t]
@@ -83,8 +114,10 @@ DecOne(w, st, R) ==
     IF st.fail \/ st.i > Len(w) THEN [st |-> [st EXCEPT !.fail = TRUE], a |-> 0]
     ELSE LET tok == w[st.i] IN
       IF tok.t = "R"
-      THEN \* interner.get_from_hash(hash).expect("referenced interned value not found")
-           LET a == st.tab[tok.h] IN
+      THEN \* interner.get_from_hash::<T>(hash).expect("referenced interned value not found"):
+           \* the lookup goes to the shard of the position's static type
+           LET g == Slot(tok.ty, tok.x)
+               a == IF g = 0 THEN 0 ELSE st.tab[g] IN
            IF Alive(a, R \cup st.pins, st.allocs)
            THEN [st |-> [st EXCEPT !.i = @ + 1], a |-> a]
            ELSE [st |-> [st EXCEPT !.fail = TRUE], a |-> 0]
@@ -166,7 +199,7 @@ Terminal == failed \/ (Len(stream) > 0 /\ pos = Len(stream) /\ (Len(stream) = Ma
 Emit ==
     /\ Terminal /\ ~done
     /\ done' = TRUE
-    /\ IF Emitting THEN PrintT(ToJson([pool |-> Pool, kids |-> Kids, reg |-> reg, ops |-> hist])) ELSE TRUE
+    /\ IF Emitting THEN PrintT(ToJson([pool |-> Pool, kids |-> Kids, ty |-> TypeOf, hash |-> HashOf, reg |-> reg, ops |-> hist])) ELSE TRUE
     /\ UNCHANGED <<stream, pos, out, allocs, tab, reg, origAlive, kept, auxUsed, failed, hist>>
 
 Next == (\E v \in DOMAIN Pool : Encode(v)) \/ Decode \/ Restart \/ DropOrig \/ DropDec \/ Emit
@@ -179,11 +212,15 @@ FIFO == \A k \in DOMAIN out : out[k] = Pool[stream[k].v]
 (* P: never more decoded than written; one result per decode.               *)
 PosOk == pos <= Len(stream) /\ Len(out) = pos
 (* M: every stored value is self-contained: a reference is preceded by the  *)
-(* inline copy in the same top-level value (what C07 relies on).            *)
+(* inline copy OF THE SAME TYPE AND HASH in the same top-level value (what  *)
+(* C07 relies on; an inline copy of another type with that hash is no use:  *)
+(* it lands in another shard).                                              *)
 SelfContained ==
     \A k \in DOMAIN stream : \A i \in DOMAIN stream[k].wire :
         stream[k].wire[i].t = "R" =>
-            \E j \in 1..(i - 1) : stream[k].wire[j] = [t |-> "S", h |-> stream[k].wire[i].h]
+            \E j \in 1..(i - 1) : /\ stream[k].wire[j].t = "S"
+                                  /\ TypeOf[stream[k].wire[j].h] = stream[k].wire[i].ty
+                                  /\ HashOf[stream[k].wire[j].h] = stream[k].wire[i].x
 (* M: the table only points at allocations of the right content.            *)
 TabOk == \A h \in H : tab[h] # 0 => allocs[tab[h]].id = h
 =============================================================================
